@@ -34,7 +34,12 @@ RULE = ('Hypothesis models of install-rule projects (1-9 rules out of install_da
         'build, HOME, TMPDIR, the real prefix, the absolute install dirs, DESTDIR) snapshotted before and after. A small slice builds '
         'real executables/shared/static libraries with gcc by executing build.ninja through harness/refninja; a sample runs under '
         'strace -f. non-trivial = the project has an absolute install_dir, or a non-default mode/umask, or a tag/subproject filter that '
-        'really removes something, or a subdir exclude, and the history has >= 2 steps; distinct by hash of (model, history).')
+        'really removes something, or a subdir exclude, and the history has >= 2 steps; distinct by hash of (model, history). '
+        'Corpus half (harness/c11corpus.py): projects of the repository\'s `test cases/` that configure here and run no program of their own while '
+        'installing (14 install-heavy ones plus 10 seed-chosen in the quick tier; all of them under two option sets in the thorough tier), built files '
+        'replaced by stand-ins: --dry-run changes nothing, install changes nothing outside DESTDIR, install-log.txt names exactly existing paths and '
+        'every created file/symlink, --only-changed after an unchanged install rewrites nothing, uninstall leaves no installed file, symlink or logged '
+        'directory; class corpus, non-trivial = >= 2 installed files.')
 ASSUMPTIONS = [
     'the check runs as root (chown works, no permission-denied paths)',
     'default directory permissions = 0777 masked by install_umask, default file permissions = 0666 (0777 when the source has an x bit) masked by install_umask (Release-notes-for-0.47.0.md); under install_umask=preserve only file modes are specified',
@@ -1429,10 +1434,32 @@ def _gen_shard(shard: T.Tuple[int, int, bool, str], ev: Evidence, fails: T.List[
         shutil.rmtree(work, ignore_errors=True)
 
 
+CORPUS_FIXED = ['10 man install', '12 data', '123 custom target directory install', '190 install_mode', '200 install name_prefix name_suffix',
+                '248 install_emptydir', '249 install_symlink', '252 install data structured', '268 install functions and follow symlinks',
+                '45 custom install dirs', '59 install subdir', '8 install', '9 header install', '95 manygen']
+CORPUS_VARIANTS: T.List[T.List[str]] = [[], ['-Ddefault_library=both', '-Dinstall_umask=077', '--libdir=lib64']]
+
+
+def _corpus_shard(shard: T.List[dict], ev: Evidence, fails: T.List[Failure]) -> None:
+    from harness import c11corpus
+    work = make_scratch('C11-corpus')
+    sigs: T.Set[str] = set()
+    try:
+        for case in shard:
+            f = c11corpus.check_corpus(case, os.path.join(work, 'case'), ev)
+            if f is not None and f.sig not in sigs:
+                sigs.add(f.sig)
+                fails.append(f)
+    finally:
+        shutil.rmtree(work, ignore_errors=True)
+
+
 def _any_shard(shard: T.Tuple[str, T.Any], ev: Evidence, fails: T.List[Failure]) -> None:
     kind, arg = shard
     if kind == 'gen':
         _gen_shard(arg, ev, fails)
+    elif kind == 'corpus':
+        _corpus_shard(arg, ev, fails)
     else:
         _probe_shard(arg, ev, fails)
 
@@ -1559,6 +1586,22 @@ def run(ctx: Ctx) -> None:
     shards += [('gen', (seeds[16 + i], ctx.n(1, 8), True, 'fork')) for i in range(8)]
     shards += [('gen', (seeds[32 + i], ctx.n(1, 12), False, 'strace')) for i in range(8)]
     shards += [('gen', (seeds[48 + i], ctx.n(1, 10), False, 'sub')) for i in range(4)]
+    # corpus half (harness/c11corpus.py): install-heavy projects of the repository's test cases in every run, all of them
+    # under two option sets in the thorough tier
+    from harness import c11corpus
+    import random as _random
+    projs = c11corpus.corpus_projects()
+    if ctx.quick:
+        fixed = [p for p in projs if os.path.basename(p) in CORPUS_FIXED and '/common/' in p]
+        rest = [p for p in projs if p not in fixed]
+        _random.Random(f'c11-corpus:{ctx.seed}').shuffle(rest)
+        cc = [{'corpus': p} for p in fixed] + [{'corpus': p, 'args': CORPUS_VARIANTS[1]} for p in rest[:10]]
+        nsh = 8
+    else:
+        cc = [({'corpus': p, 'args': v} if v else {'corpus': p}) for p in projs for v in CORPUS_VARIANTS]
+        nsh = 32
+    ctx.ev.extra['corpus_cases'] = len(cc)
+    shards += [('corpus', cc[i::nsh]) for i in range(nsh) if cc[i::nsh]]
     pmap(ctx, _any_shard, shards)
     ctx.ev.extra['owners_checked'] = OWNERS_OK
 
@@ -1568,6 +1611,9 @@ def replay(ctx: Ctx, case: T.Any, doc: dict) -> T.Optional[Failure]:
     os.makedirs(work, exist_ok=True)
     if isinstance(case, dict) and case.get('probe_name') in PROBES:
         return run_probe(case['probe_name'], work)
+    if isinstance(case, dict) and 'corpus' in case:
+        from harness import c11corpus
+        return c11corpus.check_corpus(case, os.path.join(work, 'corpus'), None)
     if isinstance(case, dict) and case.get('script_destdir'):
         c2 = Ctx(ctx.prop, ctx.tier, ctx.seed)
         script_destdir_matrix(c2)
